@@ -3,7 +3,7 @@
 From Coq Require Import List ZArith NArith String Ascii Bool.
 From PV Require Import Base.CRC32 IC10.Sig.
 Import ListNotations.
-Open Scope string_scope.
+Local Open Scope string_scope.
 
 Inductive pkind :=
 | PLogic (plural : bool) (lt : string)          (* _Device(s)LogicType(self, _LT.lt) *)
